@@ -23,7 +23,7 @@ LEVEL = "exploration"
 EXHAUSTIVE = {"quick": True, "thorough": True}
 RULE = (
     "alphabet on the observed connection: REQ a f1 | REQ a f2 (disjoint from f1) | REQ b f1 | REQ a with no filter | "
-    "REQ a with an invalid filter | REQ a with an unhashable tag value | CLOSE a | CLOSE b | EVENT matching f1 | EVENT "
+    "REQ a with an invalid filter | REQ a with an unhashable tag value | REQ a with explicit nulls | CLOSE a | CLOSE b | EVENT matching f1 | EVENT "
     "matching f2 (both published by a second connection, so they arrive as live pushes) | disconnect. ALL sequences up "
     "to depth 3 (quick) / 4 (thorough) are run on both backends, in two pacing modes (quiesce between commands / feed "
     "the next command as soon as the previous one completed) and with an immediate and a slow consumer; seeded random "
@@ -42,7 +42,7 @@ SHARD_TIMEOUT = {"quick": 600, "thorough": 3200}
 
 F1 = {"kinds": [1]}
 F2 = {"kinds": [7]}
-SYMS = ["REQa1", "REQa2", "REQb1", "REQa-", "REQa!", "REQa#", "CLOSEa", "CLOSEb", "EV1", "EV7", "DISC"]
+SYMS = ["REQa1", "REQa2", "REQb1", "REQa-", "REQa!", "REQa#", "REQa~", "CLOSEa", "CLOSEb", "EV1", "EV7", "DISC"]
 
 
 def plan(tier, seed):
@@ -175,6 +175,8 @@ def descr_filter(filters):
     s = json.dumps(filters)
     if "[[" in s:
         return "unhashable-tag-value"
+    if "null" in s:
+        return "null-valued-key"
     return "other"
 
 
@@ -191,6 +193,9 @@ def sym_to_msg(sym, n):
         return ["REQ", "a", {"kinds": "x"}, {"ids": ["zz"]}]
     if sym == "REQa#":
         return ["REQ", "a", {"#e": [["x"]]}]
+    if sym == "REQa~":
+        # valid but unusual spellings: explicit nulls, numbers as strings
+        return ["REQ", "a", {"kinds": [1], "limit": None, "since": None, "search": None}]
     if sym == "CLOSEa":
         return ["CLOSE", "a"]
     if sym == "CLOSEb":
@@ -310,7 +315,8 @@ def random_seq(r, n):
     for _ in range(n):
         roll = r.random()
         if roll < 0.45:
-            out.append(["REQ", r.choice(ids), r.choice([F1, F2, {"kinds": [1, 7]}, {"kinds": "x"}, {}])] + ([r.choice([F1, F2])] if r.random() < 0.2 else []))
+            out.append(["REQ", r.choice(ids), r.choice([F1, F2, {"kinds": [1, 7]}, {"kinds": "x"}, {}, {"kinds": [1], "limit": None}, {"kinds": ["7"], "until": None},
+                                                         {"kinds": [1], "limit": 0}, {"#e": [["x"]]}, {"kinds": [1], "ids": None}])] + ([r.choice([F1, F2])] if r.random() < 0.2 else []))
         elif roll < 0.65:
             out.append(["CLOSE", r.choice(ids)])
         elif roll < 0.95:
